@@ -4,7 +4,7 @@ from __future__ import annotations
 import numpy as np
 
 from vpkit import SubCheck, fail, ok
-from vpkit.training import diverges, gen_state_equal, make_program, program_cfgs, reference_loop, tree_close
+from vpkit.training import diverges, gen_state_equal, ill_conditioned, make_program, program_cfgs, reference_loop, tree_close
 
 PROPERTY = "C07"
 LEVEL = "exploration"
@@ -102,6 +102,9 @@ def run_case(case):
                       tracked_params=prog["tracked"], param_data=prog["param_data"], obs_data=prog["obs_data"], verbose=False, **kw)
     v = _compare(out, ref, prog, n, labels)
     if v is not None:
+        if v.bucket not in ("returned-generator-state", "loss-history-shape", "untracked-parameter-stored") and \
+                ill_conditioned(prog, n, ref, np.asarray(out[1])):
+            return ok(nontrivial=False, labels=labels + ["ill-conditioned-skipped"])
         return v
     # parameter movement
     import jax
@@ -133,6 +136,8 @@ def run_resume(case):
     losses = np.concatenate([np.asarray(o1[1]), np.asarray(o2[1])])
     want = np.array(ref["loss"])
     if not np.allclose(losses, want, rtol=1e-7, atol=1e-10):
+        if ill_conditioned(prog, n1 + n2, ref, losses):
+            return ok(nontrivial=False, labels=labels + ["ill-conditioned-skipped"])
         bad = int(np.argmax(~np.isclose(losses, want, rtol=1e-7, atol=1e-10)))
         return fail("resumed-run-differs-from-single-loop", {"n1": n1, "n2": n2, "first_bad_iteration": bad,
                                                             "got": losses.tolist(), "want": want.tolist()}, labels=labels)
